@@ -67,6 +67,10 @@ fn admissible(e: &FloatEnv) -> bool {
     }
 }
 
+/// every f64 exponent field (0..=2047) x 8 mantissa shapes
+const F64_GRID: u64 = 2048 * 8;
+/// d x 10^k, k in -400..=400, 6 digit strings
+const DEC_GRID: u64 = 801 * 6;
 const F32_SWEEP_RUNS_THOROUGH: u64 = 65536; // x 65536 patterns = all 2^32
 const F32_SWEEP_RUNS_QUICK: u64 = 1024; // x 1024 patterns, stride 4099
 
@@ -562,6 +566,8 @@ impl Property for C14 {
     }
     fn runs(&self, tier: Tier) -> u64 {
         f32_sweep_runs(tier)
+            + F64_GRID
+            + DEC_GRID
             + match tier {
                 Tier::Quick => 150_000,
                 Tier::Thorough => 12_000_000,
@@ -576,6 +582,31 @@ impl Property for C14 {
                 Tier::Thorough => Item::F32Sweep { start: run * 65536, step: 1, count: 65536 },
             };
             return Trace { item, env: EnvSel::All };
+        }
+        // deterministic enumerations after the f32 sweep: every f64 exponent field x 8 mantissa shapes,
+        // then d x 10^k for every k in -400..=400 and a few digit strings d
+        let r = run - sweeps;
+        if r < F64_GRID {
+            let ef = r / 8;
+            let full = (1u64 << 52) - 1;
+            let mant = match r % 8 {
+                0 => 0,
+                1 => 1,
+                2 => full,
+                3 => 1u64 << 51,
+                4 => 1u64 << (ef % 52),
+                5 => full & !((1u64 << (ef % 52)) - 1),
+                6 => 0x000A_AAAA_AAAA_AAAA,
+                _ => rng.next_u64() & full,
+            };
+            let sign = (ef + r) % 2;
+            return Trace { item: Item::F64 { bits: (sign << 63) | (ef << 52) | mant }, env: EnvSel::All };
+        }
+        let r = r - F64_GRID;
+        if r < DEC_GRID {
+            let k = (r / 6) as i64 - 400;
+            let digits = ["1", "5", "9", "17", "123456789", "99999999999999999999999999"][(r % 6) as usize];
+            return Trace { item: Item::Dec { value: Dec::new((r / 6) % 2 == 1, digits, -k) }, env: EnvSel::All };
         }
         let item = match rng.below(10) {
             0 => {
